@@ -29,6 +29,8 @@ type Style struct {
 	LitEscapes bool
 	// BareAnnot: nodes without rules and note get an empty inline annotation (`//` and the line end).
 	BareAnnot bool
+	// Gaps: the blank after `//` / `/*` is a tab, nothing, or several blanks.
+	Gaps bool
 }
 
 // RespellLit rewrites a JSON string literal: characters outside existing escape sequences become
@@ -76,6 +78,7 @@ type renderer struct {
 	st     Style
 	ncomm  int
 	nblock int
+	ngap   int
 	sb     strings.Builder
 	nl     string
 	ind    string
@@ -137,7 +140,11 @@ func (r *renderer) node(n *Node, level int, comma bool) {
 	switch n.Kind {
 	case KObject:
 		if len(n.Props) == 0 {
-			r.sb.WriteString("{}")
+			if r.on(r.st.ExtraBlank) {
+				r.sb.WriteString("{ }")
+			} else {
+				r.sb.WriteString("{}")
+			}
 			r.tail(n, comma, level)
 			return
 		}
@@ -173,7 +180,11 @@ func (r *renderer) node(n *Node, level int, comma bool) {
 		}
 	case KArray:
 		if len(n.Items) == 0 {
-			r.sb.WriteString("[]")
+			if r.on(r.st.ExtraBlank) {
+				r.sb.WriteString("[ ]") // blanks between the brackets: as empty as []
+			} else {
+				r.sb.WriteString("[]")
+			}
 			r.tail(n, comma, level)
 			return
 		}
@@ -271,10 +282,16 @@ func (r *renderer) annotationForm(n *Node, level int, force int) {
 		sp = ""
 	}
 	r.sb.WriteString(" ")
+	gap := " "
+	if r.st.Gaps {
+		// blanks between the annotation marker and what follows: none, a tab, several
+		r.ngap++
+		gap = []string{"\t", "", "  ", " \t "}[r.ngap%4]
+	}
 	if ml == 0 {
-		r.sb.WriteString("//" + " ")
+		r.sb.WriteString("//" + gap)
 	} else {
-		r.sb.WriteString("/*" + " ")
+		r.sb.WriteString("/*" + gap)
 	}
 	if len(n.Rules) > 0 {
 		sep := ", "
